@@ -432,6 +432,7 @@ fn arr<const N: usize>(s: &[Dyn]) -> io::Result<[Dyn; N]> {
 impl Encode for Dyn {
     fn encode<E: Encoder + ?Sized>(&self, e: &mut E, p: &Plugin, s: &mut Session) -> io::Result<()> {
         ENC_CALLS.with(|c| c.set(c.get() + 1));
+        if let V::Bad(m) = &self.v { return Err(bad(format!("encode of a value that must not be encoded: {}", m))); }
         use std::num::*;
         use std::sync::atomic::*;
         match &*self.ty {
@@ -577,9 +578,10 @@ impl Encode for Dyn {
                     }
                 } else { Err(bad("Ge")) },
                 Un::GSkip => {
-                    let k = self.seqn(1)?;
-                    // the skipped field carries a non-default value of the parameter type; only `n` is written
-                    GSkipS { t: k[0].clone(), n: 0x5A }.encode(e, p, s)
+                    // the skipped field carries a non-default value of the parameter type (it would fail to
+                    // encode if the derive wrote it); only `n` is written
+                    let junk = Dyn { ty: self.ty.clone(), v: V::Bad("skipped field must not be encoded".into()) };
+                    GSkipS { t: junk, n: 0x5A }.encode(e, p, s)
                 }
                 #[cfg(feature = "extras")]
                 Un::SmallVec2 => self.seq()?.iter().cloned().collect::<smallvec::SmallVec<[Dyn; 2]>>().encode(e, p, s),
@@ -625,4 +627,1050 @@ impl Encode for Dyn {
             }
         }
     }
+}
+
+// ---------------------------------------------------------------------------
+// Decode: the expected term comes from the frame stack
+// ---------------------------------------------------------------------------
+
+fn sorted(mut v: Vec<Dyn>) -> Vec<Dyn> { v.sort(); v }
+fn sorted_map(mut v: Vec<(Dyn, Dyn)>) -> Vec<(Dyn, Dyn)> { v.sort(); v }
+
+macro_rules! dec_atomic {
+    ($d:expr, $p:expr, $s:expr, $at:ty, $wrap:expr) => {{
+        let a = <$at>::decode($d, $p, $s)?;
+        $wrap(a.load(std::sync::atomic::Ordering::Relaxed))
+    }};
+}
+
+impl Decode for Dyn {
+    fn decode<D: Decoder + ?Sized>(d: &mut D, p: &Plugin, s: &mut Session) -> io::Result<Self> {
+        DEC_CALLS.with(|c| c.set(c.get() + 1));
+        use std::num::*;
+        use std::sync::atomic::*;
+        let ty = next_ty()?;
+        let one = |t: &Arc<Ty>| vec![t.clone()];
+        let u = |x: u128| V::U(x);
+        let i = |x: i128| V::I(x);
+        let v = match &*ty {
+            Ty::Leaf(l) => match l {
+                Leaf::U8 => u(u8::decode(d, p, s)? as u128),
+                Leaf::U16 => u(u16::decode(d, p, s)? as u128),
+                Leaf::U32 => u(u32::decode(d, p, s)? as u128),
+                Leaf::U64 => u(u64::decode(d, p, s)? as u128),
+                Leaf::U128 => u(u128::decode(d, p, s)?),
+                Leaf::Usize => u(usize::decode(d, p, s)? as u128),
+                Leaf::I8 => i(i8::decode(d, p, s)? as i128),
+                Leaf::I16 => i(i16::decode(d, p, s)? as i128),
+                Leaf::I32 => i(i32::decode(d, p, s)? as i128),
+                Leaf::I64 => i(i64::decode(d, p, s)? as i128),
+                Leaf::I128 => i(i128::decode(d, p, s)?),
+                Leaf::Isize => i(isize::decode(d, p, s)? as i128),
+                Leaf::Bool => V::Bool(bool::decode(d, p, s)?),
+                Leaf::Char => V::Char(char::decode(d, p, s)?),
+                Leaf::F32 => V::F32(f32::decode(d, p, s)?.to_bits()),
+                Leaf::F64 => V::F64(f64::decode(d, p, s)?.to_bits()),
+                Leaf::Unit => { <()>::decode(d, p, s)?; V::Unit }
+                Leaf::String | Leaf::RefStr => V::Str(String::decode(d, p, s)?),
+                Leaf::BoxStr => V::Str(Box::<str>::decode(d, p, s)?.to_string()),
+                Leaf::RcStr => V::Str(Rc::<str>::decode(d, p, s)?.to_string()),
+                Leaf::ArcStr => V::Str(Arc::<str>::decode(d, p, s)?.to_string()),
+                Leaf::CowStr => V::Str(Cow::<'static, str>::decode(d, p, s)?.into_owned()),
+                Leaf::PathBuf => V::Str(PathBuf::decode(d, p, s)?.to_str().ok_or_else(|| bad("path utf8"))?.to_string()),
+                Leaf::BoxPath => V::Str(Box::<Path>::decode(d, p, s)?.to_str().ok_or_else(|| bad("path utf8"))?.to_string()),
+                Leaf::RcPath => V::Str(Rc::<Path>::decode(d, p, s)?.to_str().ok_or_else(|| bad("path utf8"))?.to_string()),
+                Leaf::ArcPath => V::Str(Arc::<Path>::decode(d, p, s)?.to_str().ok_or_else(|| bad("path utf8"))?.to_string()),
+                Leaf::Duration => { let x = std::time::Duration::decode(d, p, s)?; V::Dur(x.as_secs(), x.subsec_nanos()) }
+                Leaf::RangeFull => { std::ops::RangeFull::decode(d, p, s)?; V::Unit }
+                Leaf::NzU8 => u(NonZeroU8::decode(d, p, s)?.get() as u128),
+                Leaf::NzU16 => u(NonZeroU16::decode(d, p, s)?.get() as u128),
+                Leaf::NzU32 => u(NonZeroU32::decode(d, p, s)?.get() as u128),
+                Leaf::NzU64 => u(NonZeroU64::decode(d, p, s)?.get() as u128),
+                Leaf::NzU128 => u(NonZeroU128::decode(d, p, s)?.get()),
+                Leaf::NzUsize => u(NonZeroUsize::decode(d, p, s)?.get() as u128),
+                Leaf::NzI8 => i(NonZeroI8::decode(d, p, s)?.get() as i128),
+                Leaf::NzI16 => i(NonZeroI16::decode(d, p, s)?.get() as i128),
+                Leaf::NzI32 => i(NonZeroI32::decode(d, p, s)?.get() as i128),
+                Leaf::NzI64 => i(NonZeroI64::decode(d, p, s)?.get() as i128),
+                Leaf::NzI128 => i(NonZeroI128::decode(d, p, s)?.get()),
+                Leaf::NzIsize => i(NonZeroIsize::decode(d, p, s)?.get() as i128),
+                Leaf::AtBool => dec_atomic!(d, p, s, AtomicBool, V::Bool),
+                Leaf::AtI8 => dec_atomic!(d, p, s, AtomicI8, |x| V::I(x as i128)),
+                Leaf::AtI16 => dec_atomic!(d, p, s, AtomicI16, |x| V::I(x as i128)),
+                Leaf::AtI32 => dec_atomic!(d, p, s, AtomicI32, |x| V::I(x as i128)),
+                Leaf::AtI64 => dec_atomic!(d, p, s, AtomicI64, |x| V::I(x as i128)),
+                Leaf::AtIsize => dec_atomic!(d, p, s, AtomicIsize, |x| V::I(x as i128)),
+                Leaf::AtU8 => dec_atomic!(d, p, s, AtomicU8, |x| V::U(x as u128)),
+                Leaf::AtU16 => dec_atomic!(d, p, s, AtomicU16, |x| V::U(x as u128)),
+                Leaf::AtU32 => dec_atomic!(d, p, s, AtomicU32, |x| V::U(x as u128)),
+                Leaf::AtU64 => dec_atomic!(d, p, s, AtomicU64, |x| V::U(x as u128)),
+                Leaf::AtUsize => dec_atomic!(d, p, s, AtomicUsize, |x| V::U(x as u128)),
+                Leaf::CellU32 => u(Cell::<u32>::decode(d, p, s)?.get() as u128),
+                Leaf::CellI64 => i(Cell::<i64>::decode(d, p, s)?.get() as i128),
+                Leaf::CellBool => V::Bool(Cell::<bool>::decode(d, p, s)?.get()),
+                Leaf::CellPair => { let (a, b) = Cell::<(u8, i16)>::decode(d, p, s)?.get(); V::Raw(vec![V::U(a as u128), V::I(b as i128)]) }
+                Leaf::UnitStruct => { UnitS::decode(d, p, s)?; V::Unit }
+                Leaf::Named => from_named(NamedS::decode(d, p, s)?),
+                Leaf::TupleStruct => from_tuples(TupleS::decode(d, p, s)?),
+                Leaf::Enum => from_en(En::decode(d, p, s)?),
+                Leaf::BigEnum => from_big(Big::decode(d, p, s)?),
+                Leaf::IStr => V::HandleStr(Interned::<str>::decode(d, p, s)?),
+                Leaf::IPath => V::HandlePath(Interned::<Path>::decode(d, p, s)?),
+                Leaf::IString => V::HandleString(Interned::<String>::decode(d, p, s)?),
+                #[cfg(feature = "extras")]
+                Leaf::BvUsizeLsb0 => from_bv(bitvec::vec::BitVec::<usize, bitvec::order::Lsb0>::decode(d, p, s)?),
+                #[cfg(feature = "extras")]
+                Leaf::BvU8Lsb0 => from_bv(bitvec::vec::BitVec::<u8, bitvec::order::Lsb0>::decode(d, p, s)?),
+                #[cfg(feature = "extras")]
+                Leaf::BvU8Msb0 => from_bv(bitvec::vec::BitVec::<u8, bitvec::order::Msb0>::decode(d, p, s)?),
+                #[cfg(feature = "extras")]
+                Leaf::BvU16Lsb0 => from_bv(bitvec::vec::BitVec::<u16, bitvec::order::Lsb0>::decode(d, p, s)?),
+                #[cfg(feature = "extras")]
+                Leaf::BvU32Msb0 => from_bv(bitvec::vec::BitVec::<u32, bitvec::order::Msb0>::decode(d, p, s)?),
+                #[cfg(feature = "extras")]
+                Leaf::BvU64Lsb0 => from_bv(bitvec::vec::BitVec::<u64, bitvec::order::Lsb0>::decode(d, p, s)?),
+                #[cfg(not(feature = "extras"))]
+                _ => return Err(bad("built without feature extras")),
+            },
+            Ty::Un(un, t) => match un {
+                Un::Option => V::Opt(with_frame(one(t), || Option::<Dyn>::decode(d, p, s))?.map(Box::new)),
+                Un::Vec | Un::Slice => V::Seq(with_frame(one(t), || Vec::<Dyn>::decode(d, p, s))?),
+                Un::VecDeque => V::Seq(with_frame(one(t), || VecDeque::<Dyn>::decode(d, p, s))?.into_iter().collect()),
+                Un::LinkedList => V::Seq(with_frame(one(t), || LinkedList::<Dyn>::decode(d, p, s))?.into_iter().collect()),
+                Un::BoxSlice => V::Seq(with_frame(one(t), || Box::<[Dyn]>::decode(d, p, s))?.into_vec()),
+                Un::RcSlice => V::Seq(with_frame(one(t), || Rc::<[Dyn]>::decode(d, p, s))?.to_vec()),
+                Un::ArcSlice => V::Seq(with_frame(one(t), || Arc::<[Dyn]>::decode(d, p, s))?.to_vec()),
+                Un::BTreeSet => V::Set(with_frame(one(t), || BTreeSet::<Dyn>::decode(d, p, s))?.into_iter().collect()),
+                Un::HashSet => V::Set(sorted(with_frame(one(t), || HashSet::<Dyn>::decode(d, p, s))?.into_iter().collect())),
+                Un::HashSetFx => V::Set(sorted(with_frame(one(t), || HashSet::<Dyn, FxBuildHasher>::decode(d, p, s))?.into_iter().collect())),
+                Un::DashSet => V::Set(sorted(with_frame(one(t), || DashSet::<Dyn>::decode(d, p, s))?.into_iter().collect())),
+                Un::Box => V::Seq(vec![*with_frame(one(t), || Box::<Dyn>::decode(d, p, s))?]),
+                Un::Rc => V::Seq(vec![(*with_frame(one(t), || Rc::<Dyn>::decode(d, p, s))?).clone()]),
+                Un::Arc => V::Seq(vec![(*with_frame(one(t), || Arc::<Dyn>::decode(d, p, s))?).clone()]),
+                Un::Cow => V::Seq(vec![with_frame(one(t), || Cow::<'static, Dyn>::decode(d, p, s))?.into_owned()]),
+                Un::CowSlice => V::Seq(with_frame(one(t), || Cow::<'static, [Dyn]>::decode(d, p, s))?.into_owned()),
+                Un::Ref | Un::RefMut => V::Seq(vec![with_frame(one(t), || Dyn::decode(d, p, s))?]),
+                Un::RefCell => V::Seq(vec![with_frame(one(t), || RefCell::<Dyn>::decode(d, p, s))?.into_inner()]),
+                Un::Wrapping => V::Seq(vec![with_frame(one(t), || std::num::Wrapping::<Dyn>::decode(d, p, s))?.0]),
+                Un::Reverse => V::Seq(vec![with_frame(one(t), || std::cmp::Reverse::<Dyn>::decode(d, p, s))?.0]),
+                Un::Phantom => { with_frame(one(t), || std::marker::PhantomData::<Dyn>::decode(d, p, s))?; V::Unit }
+                Un::Range => { let r = with_frame(one(t), || std::ops::Range::<Dyn>::decode(d, p, s))?; V::Seq(vec![r.start, r.end]) }
+                Un::RangeInclusive => { let r = with_frame(one(t), || std::ops::RangeInclusive::<Dyn>::decode(d, p, s))?; let (a, b) = r.into_inner(); V::Seq(vec![a, b]) }
+                Un::RangeFrom => V::Seq(vec![with_frame(one(t), || std::ops::RangeFrom::<Dyn>::decode(d, p, s))?.start]),
+                Un::RangeTo => V::Seq(vec![with_frame(one(t), || std::ops::RangeTo::<Dyn>::decode(d, p, s))?.end]),
+                Un::RangeToInclusive => V::Seq(vec![with_frame(one(t), || std::ops::RangeToInclusive::<Dyn>::decode(d, p, s))?.end]),
+                Un::Bound => match with_frame(one(t), || std::ops::Bound::<Dyn>::decode(d, p, s))? {
+                    std::ops::Bound::Unbounded => V::Variant(0, vec![]),
+                    std::ops::Bound::Included(x) => V::Variant(1, vec![x]),
+                    std::ops::Bound::Excluded(x) => V::Variant(2, vec![x]),
+                },
+                Un::Array0 => V::Seq(with_frame(one(t), || <[Dyn; 0]>::decode(d, p, s))?.to_vec()),
+                Un::Array1 => V::Seq(with_frame(one(t), || <[Dyn; 1]>::decode(d, p, s))?.to_vec()),
+                Un::Array2 => V::Seq(with_frame(one(t), || <[Dyn; 2]>::decode(d, p, s))?.to_vec()),
+                Un::Array3 => V::Seq(with_frame(one(t), || <[Dyn; 3]>::decode(d, p, s))?.to_vec()),
+                Un::Array4 => V::Seq(with_frame(one(t), || <[Dyn; 4]>::decode(d, p, s))?.to_vec()),
+                Un::Array33 => V::Seq(with_frame(one(t), || <[Dyn; 33]>::decode(d, p, s))?.to_vec()),
+                Un::Pair => { let (a, b) = with_frame(one(t), || <(Dyn, Dyn)>::decode(d, p, s))?; V::Seq(vec![a, b]) }
+                Un::Triple => { let (a, b, c) = with_frame(one(t), || <(Dyn, Dyn, Dyn)>::decode(d, p, s))?; V::Seq(vec![a, b, c]) }
+                Un::Interned => {
+                    let idx = sr_open(&SR_DEC);
+                    let before = DEC_CALLS.with(|c| c.get());
+                    let r = with_frame(one(t), || Interned::<Dyn>::decode(d, p, s));
+                    sr_close(&SR_DEC, idx, DEC_CALLS.with(|c| c.get()) != before);
+                    V::Handle(r?)
+                }
+                Un::InternedSlice => V::HandleSlice(with_frame(one(t), || Interned::<[Dyn]>::decode(d, p, s))?),
+                Un::Gs => {
+                    let g = with_frame(one(t), || GS::<Dyn>::decode(d, p, s))?;
+                    if g.skipped != 0 { V::Bad("GS: skipped field not Default".into()) } else { V::Seq(vec![g.a, g.b]) }
+                }
+                Un::Ge => match with_frame(one(t), || GE::<Dyn>::decode(d, p, s))? {
+                    GE::U => V::Variant(0, vec![]),
+                    GE::T1(x) => V::Variant(1, vec![x]),
+                    GE::N { x, s: k, y } => if k == 0 { V::Variant(2, vec![x, y]) } else { V::Bad("GE::N skip".into()) },
+                    GE::T2(k, x) => if k == 0 { V::Variant(3, vec![x]) } else { V::Bad("GE::T2 skip".into()) },
+                },
+                Un::GSkip => {
+                    let g = with_frame(one(t), || GSkipS::<Dyn>::decode(d, p, s))?;
+                    if g.t != Dyn::default() { V::Bad("GSkip: skipped generic field not Default".into()) }
+                    else if g.n != 0x5A { V::Bad(format!("GSkip: n = {}", g.n)) }
+                    else { V::Unit }
+                }
+                #[cfg(feature = "extras")]
+                Un::SmallVec2 => V::Seq(with_frame(one(t), || smallvec::SmallVec::<[Dyn; 2]>::decode(d, p, s))?.into_vec()),
+                #[cfg(not(feature = "extras"))]
+                Un::SmallVec2 => return Err(bad("built without feature extras")),
+            },
+            Ty::Bin(b, x, y) => {
+                let two = vec![x.clone(), y.clone()];
+                match b {
+                    Bin::Result => {
+                        // Ok arm decodes T, Err arm decodes E: peeking is impossible, so the frame
+                        // holds both and the arm taken is only known afterwards.  Use two frames.
+                        // (the real impl calls exactly one of T::decode / E::decode)
+                        let r = decode_result(d, p, s, x, y)?;
+                        match r { Ok(v) => V::Variant(0, vec![v]), Err(v) => V::Variant(1, vec![v]) }
+                    }
+                    Bin::BTreeMap => V::Map(with_frame(two, || BTreeMap::<Dyn, Dyn>::decode(d, p, s))?.into_iter().collect()),
+                    Bin::HashMap => V::Map(sorted_map(with_frame(two, || HashMap::<Dyn, Dyn>::decode(d, p, s))?.into_iter().collect())),
+                    Bin::HashMapFx => V::Map(sorted_map(with_frame(two, || HashMap::<Dyn, Dyn, FxBuildHasher>::decode(d, p, s))?.into_iter().collect())),
+                    Bin::DashMap => V::Map(sorted_map(with_frame(two, || DashMap::<Dyn, Dyn>::decode(d, p, s))?.into_iter().collect())),
+                    Bin::Gs2 => {
+                        let g = with_frame(two, || GS2::<Dyn, Dyn>::decode(d, p, s))?;
+                        if !g.z.is_empty() { V::Bad("GS2 skip".into()) } else { V::Seq(vec![g.t, g.u]) }
+                    }
+                    Bin::Ge2 => match decode_ge2(d, p, s, x, y)? {
+                        GE2::L(a) => V::Variant(0, vec![a]),
+                        GE2::R(a) => V::Variant(1, vec![a]),
+                        GE2::B { t, u } => V::Variant(2, vec![t, u]),
+                        GE2::Z => V::Variant(3, vec![]),
+                    },
+                }
+            }
+            Ty::Tup(ts) => {
+                let f = ts.clone();
+                macro_rules! tup { ($($n:ident),+) => {{ let ($($n,)+) = with_frame(f, || <($(tup!(@d $n),)+)>::decode(d, p, s))?; V::Seq(vec![$($n),+]) }}; (@d $n:ident) => { Dyn }; }
+                match ts.len() {
+                    1 => tup!(a),
+                    2 => tup!(a, b),
+                    3 => tup!(a, b, c),
+                    4 => tup!(a, b, c, e),
+                    5 => tup!(a, b, c, e, f5),
+                    6 => tup!(a, b, c, e, f5, g),
+                    7 => tup!(a, b, c, e, f5, g, h),
+                    8 => tup!(a, b, c, e, f5, g, h, i8_),
+                    9 => tup!(a, b, c, e, f5, g, h, i8_, j),
+                    10 => tup!(a, b, c, e, f5, g, h, i8_, j, k),
+                    11 => tup!(a, b, c, e, f5, g, h, i8_, j, k, l),
+                    12 => tup!(a, b, c, e, f5, g, h, i8_, j, k, l, m),
+                    n => return Err(bad(format!("tuple arity {}", n))),
+                }
+            }
+        };
+        Ok(Dyn { ty, v })
+    }
+}
+
+/// `Result<T, E>`: the real impl reads the tag and then decodes exactly one
+/// `Dyn`; which type that `Dyn` must have depends on the tag.  A wrapper type
+/// per side records which side was asked for.
+#[derive(Debug, Clone, PartialEq, Eq, Hash, PartialOrd, Ord)]
+struct Side<const K: usize>(Dyn);
+impl<const K: usize> Decode for Side<K> {
+    fn decode<D: Decoder + ?Sized>(d: &mut D, p: &Plugin, s: &mut Session) -> io::Result<Self> {
+        // frame = [x, y]; pick by side, not by call order
+        let t = CTX.with(|c| c.borrow().last().map(|f| f.tys[K].clone())).ok_or_else(|| bad("Side without frame"))?;
+        Ok(Side(with_frame(vec![t], || Dyn::decode(d, p, s))?))
+    }
+}
+fn decode_result<D: Decoder + ?Sized>(d: &mut D, p: &Plugin, s: &mut Session, x: &Arc<Ty>, y: &Arc<Ty>) -> io::Result<Result<Dyn, Dyn>> {
+    let r = with_frame(vec![x.clone(), y.clone()], || Result::<Side<0>, Side<1>>::decode(d, p, s))?;
+    Ok(match r { Ok(a) => Ok(a.0), Err(b) => Err(b.0) })
+}
+fn decode_ge2<D: Decoder + ?Sized>(d: &mut D, p: &Plugin, s: &mut Session, x: &Arc<Ty>, y: &Arc<Ty>) -> io::Result<GE2<Dyn, Dyn>> {
+    let r = with_frame(vec![x.clone(), y.clone()], || GE2::<Side<0>, Side<1>>::decode(d, p, s))?;
+    Ok(match r { GE2::L(a) => GE2::L(a.0), GE2::R(b) => GE2::R(b.0), GE2::B { t, u } => GE2::B { t: t.0, u: u.0 }, GE2::Z => GE2::Z })
+}
+
+// ---------------------------------------------------------------------------
+// Terms from TLC: [ctor, class, kid...]; classes; concretisation
+// ---------------------------------------------------------------------------
+
+#[derive(Clone, Debug)]
+pub struct Term {
+    pub ctor: String,
+    pub class: String,
+    pub kids: Vec<Term>,
+}
+
+pub fn class_string(j: &J) -> String {
+    match j {
+        J::String(s) => s.clone(),
+        // <<"b", k, d>> from TLA+  ->  b{k}, b{k}m1, b{k}p1
+        J::Array(a) => a.iter().map(|x| match x { J::String(s) => s.clone(), J::Number(n) => {
+            let n = n.as_i64().unwrap_or(0);
+            if a.len() == 3 && std::ptr::eq(x, &a[2]) { match n { -1 => "m1".into(), 1 => "p1".into(), _ => String::new() } } else { n.to_string() }
+        } _ => "?".into() }).collect::<Vec<_>>().join(""),
+        _ => "?".into(),
+    }
+}
+
+pub fn parse_term(j: &J) -> Result<Term, String> {
+    let a = j.as_array().ok_or("term not an array")?;
+    if a.len() < 2 { return Err("term too short".into()); }
+    let ctor = a[0].as_str().ok_or("ctor not a string")?.to_string();
+    let class = class_string(&a[1]);
+    let kids = a[2..].iter().map(parse_term).collect::<Result<Vec<_>, _>>()?;
+    Ok(Term { ctor, class, kids })
+}
+
+pub fn ty_of(t: &Term) -> Result<Arc<Ty>, String> {
+    if t.ctor == "Tuple" {
+        if t.kids.is_empty() || t.kids.len() > 12 { return Err("tuple arity".into()); }
+        return Ok(Arc::new(Ty::Tup(t.kids.iter().map(ty_of).collect::<Result<_, _>>()?)));
+    }
+    if let Some(l) = Leaf::parse(&t.ctor) {
+        if !t.kids.is_empty() { return Err(format!("leaf {} with kids", t.ctor)); }
+        return Ok(Arc::new(Ty::Leaf(l)));
+    }
+    if let Some(u) = Un::parse(&t.ctor) {
+        if t.kids.len() != 1 { return Err(format!("{} needs 1 kid", t.ctor)); }
+        return Ok(Arc::new(Ty::Un(u, ty_of(&t.kids[0])?)));
+    }
+    if let Some(b) = Bin::parse(&t.ctor) {
+        if t.kids.len() != 2 { return Err(format!("{} needs 2 kids", t.ctor)); }
+        return Ok(Arc::new(Ty::Bin(b, ty_of(&t.kids[0])?, ty_of(&t.kids[1])?)));
+    }
+    Err(format!("unknown constructor {}", t.ctor))
+}
+
+fn int_bits(l: Leaf) -> Option<(u32, bool)> {
+    use Leaf::*;
+    Some(match l {
+        U8 | NzU8 | AtU8 => (8, false), U16 | NzU16 | AtU16 => (16, false), U32 | NzU32 | AtU32 | CellU32 => (32, false),
+        U64 | NzU64 | AtU64 | Usize | NzUsize | AtUsize => (64, false), U128 | NzU128 => (128, false),
+        I8 | NzI8 | AtI8 => (8, true), I16 | NzI16 | AtI16 => (16, true), I32 | NzI32 | AtI32 => (32, true),
+        I64 | NzI64 | AtI64 | Isize | NzIsize | AtIsize | CellI64 => (64, true), I128 | NzI128 => (128, true),
+        _ => return None,
+    })
+}
+fn is_nonzero(l: Leaf) -> bool { l.name().starts_with("Nz") }
+
+fn mask(w: u32) -> u128 { if w == 128 { u128::MAX } else { (1u128 << w) - 1 } }
+
+/// classes of an integer of width w (names; unsigned wire value = zigzag for signed)
+fn int_classes(w: u32, nonzero: bool) -> Vec<String> {
+    let mut v = vec![];
+    if !nonzero { v.push("zero".to_string()); }
+    v.push("one".into());
+    let mut k = 1;
+    while 7 * k < w {
+        v.push(format!("b{}m1", k));
+        v.push(format!("b{}", k));
+        v.push(format!("b{}p1", k));
+        k += 1;
+    }
+    v.push("maxm1".into());
+    v.push("max".into());
+    v
+}
+fn int_class_wire(w: u32, class: &str) -> Option<u128> {
+    Some(match class {
+        "zero" => 0, "one" => 1, "max" => mask(w), "maxm1" => mask(w) - 1,
+        c if c.starts_with('b') => {
+            let (k, d) = if let Some(x) = c.strip_suffix("m1") { (x[1..].parse::<u32>().ok()?, -1i32) }
+                else if let Some(x) = c.strip_suffix("p1") { (x[1..].parse::<u32>().ok()?, 1) }
+                else { (c[1..].parse::<u32>().ok()?, 0) };
+            if 7 * k >= w { return None; }
+            let b = 1u128 << (7 * k);
+            match d { -1 => b - 1, 1 => b + 1, _ => b }
+        }
+        _ => return None,
+    })
+}
+const STR_CLASSES: &[&str] = &["empty", "ascii", "nul", "multibyte", "len127", "len128", "len16383", "len16384"];
+const STR_SHORT: &[&str] = &["empty", "ascii", "multibyte"];
+const PATH_CLASSES: &[&str] = &["empty", "ascii", "multibyte", "dots"];
+const FLOAT_CLASSES: &[&str] = &["zero", "negzero", "one", "negone", "minpos", "max", "min", "inf", "neginf", "nan", "nanpayload", "nanneg"];
+const CHAR_CLASSES: &[&str] = &["nul", "a", "x7f", "x80", "x7ff", "x800", "x3fff", "x4000", "xd7ff", "xe000", "xffff", "x10000", "x10ffff"];
+const BV_CLASSES: &[&str] = &["empty", "one1", "seven", "eightones", "eighthi", "nine", "b63", "b64", "b65", "alt130", "ones200"];
+const SEQ_CLASSES: &[&str] = &["empty", "one", "two", "rep", "big"];
+const SET_CLASSES: &[&str] = &["empty", "one", "two", "big"];
+
+pub fn leaf_classes(l: Leaf) -> (Vec<std::string::String>, Vec<std::string::String>, std::string::String) {
+    let sv = |x: &[&str]| x.iter().map(|s| s.to_string()).collect::<Vec<_>>();
+    use Leaf::*;
+    if let Some((w, _)) = int_bits(l) {
+        let nz = is_nonzero(l);
+        let all = int_classes(w, nz);
+        let short = if nz { sv(&["one", "b1", "max"]) } else { sv(&["zero", "b1", "max"]) };
+        return (all, short, "b1".into());
+    }
+    match l {
+        Bool | AtBool | CellBool => (sv(&["false", "true"]), sv(&["false", "true"]), "true".into()),
+        Char => (sv(CHAR_CLASSES), sv(&["a", "x4000", "x10ffff"]), "a".into()),
+        F32 | F64 => (sv(FLOAT_CLASSES), sv(&["one", "negzero", "nanpayload"]), "one".into()),
+        Unit | RangeFull | UnitStruct => (sv(&["-"]), sv(&["-"]), "-".into()),
+        String | BoxStr | RcStr | ArcStr | CowStr | RefStr => (sv(STR_CLASSES), sv(STR_SHORT), "ascii".into()),
+        PathBuf | BoxPath | RcPath | ArcPath => (sv(PATH_CLASSES), sv(&["empty", "ascii"]), "ascii".into()),
+        Duration => (sv(&["zero", "onens", "small", "b", "max"]), sv(&["zero", "max"]), "small".into()),
+        CellPair => (sv(&["a", "b"]), sv(&["a"]), "a".into()),
+        Named | TupleStruct => (sv(&["zero", "mixed", "max"]), sv(&["zero", "mixed"]), "mixed".into()),
+        Enum => (sv(&["a", "b", "c", "d", "e"]), sv(&["a", "c"]), "b".into()),
+        BigEnum => (sv(&["v0", "v1", "v126", "v127", "v128", "v129", "v130", "v131"]), sv(&["v0", "v127", "v129"]), "v128".into()),
+        IStr | IPath | IString => (sv(&["dupempty", "dup", "intern", "internmb"]), sv(&["dup", "intern"]), "intern".into()),
+        BvUsizeLsb0 | BvU8Lsb0 | BvU8Msb0 | BvU16Lsb0 | BvU32Msb0 | BvU64Lsb0 => (sv(BV_CLASSES), sv(&["empty", "nine", "alt130"]), "nine".into()),
+        _ => unreachable!(),
+    }
+}
+
+pub fn un_classes(u: Un) -> (std::vec::Vec<String>, String) {
+    let sv = |x: &[&str]| x.iter().map(|s| s.to_string()).collect::<std::vec::Vec<_>>();
+    use Un::*;
+    match u {
+        Option => (sv(&["none", "some"]), "some".into()),
+        Vec | VecDeque | LinkedList | BoxSlice | RcSlice | ArcSlice | Slice | CowSlice | SmallVec2 => (sv(SEQ_CLASSES), "two".into()),
+        // "dup": two elements, made with Interned::new_duplicating_unsized (not registered in the interner)
+        InternedSlice => (sv(&["empty", "one", "two", "rep", "big", "dup"]), "two".into()),
+        BTreeSet | HashSet | HashSetFx | DashSet => (sv(SET_CLASSES), "two".into()),
+        Bound => (sv(&["unbounded", "included", "excluded"]), "included".into()),
+        Pair => (sv(&["diff", "same"]), "diff".into()),
+        Triple | Array3 | Array4 | Array33 => (sv(&["diff", "rep"]), "diff".into()),
+        Interned => (sv(&["intern", "dup"]), "intern".into()),
+        Ge => (sv(&["u", "t1", "n", "t2"]), "n".into()),
+        _ => (sv(&["-"]), "-".into()),
+    }
+}
+pub fn bin_classes(b: Bin) -> (Vec<String>, String) {
+    let sv = |x: &[&str]| x.iter().map(|s| s.to_string()).collect::<Vec<_>>();
+    match b {
+        Bin::Result => (sv(&["ok", "err"]), "ok".into()),
+        Bin::BTreeMap | Bin::HashMap | Bin::HashMapFx | Bin::DashMap => (sv(SET_CLASSES), "two".into()),
+        Bin::Gs2 => (sv(&["-"]), "-".into()),
+        Bin::Ge2 => (sv(&["l", "r", "b", "z"]), "b".into()),
+    }
+}
+
+/// The universe handed to TLC (single source of truth for names and classes)
+/// and the list of covered impls for the evidence.
+pub fn universe() -> J {
+    let mut leaves = vec![];
+    for &l in Leaf::ALL {
+        if l.is_extra() && !EXTRAS { continue; }
+        let (all, short, def) = leaf_classes(l);
+        leaves.push(json!({"n": l.name(), "classes": all, "short": short, "def": def, "extra": l.is_extra()}));
+    }
+    let mut uns = vec![];
+    for &u in Un::ALL {
+        if u.is_extra() && !EXTRAS { continue; }
+        let (all, def) = un_classes(u);
+        uns.push(json!({"n": u.name(), "classes": all, "def": def, "extra": u.is_extra()}));
+    }
+    let mut bins = vec![];
+    for &b in Bin::ALL {
+        let (all, def) = bin_classes(b);
+        bins.push(json!({"n": b.name(), "classes": all, "def": def}));
+    }
+    json!({"extras": EXTRAS, "leaves": leaves, "un": uns, "bin": bins, "tuple_arities": (1..=12).collect::<Vec<u32>>()})
+}
+
+pub struct Gen<'a> {
+    pub interner: &'a Interner,
+    pub seed: u64,
+}
+
+fn mix(seed: u64, salt: u32) -> u64 {
+    let mut x = seed ^ ((salt as u64).wrapping_mul(0x9E37_79B9_7F4A_7C15));
+    x ^= x >> 33; x = x.wrapping_mul(0xff51_afd7_ed55_8ccd); x ^= x >> 33;
+    x
+}
+
+impl<'a> Gen<'a> {
+    /// perturbation applied for salt > 0 (neighbouring values; seeded)
+    fn delta(&self, salt: u32) -> u128 { if salt == 0 { 0 } else { salt as u128 + (mix(self.seed, salt) % 3) as u128 } }
+
+    fn string_for(&self, class: &str, salt: u32) -> Result<String, String> {
+        let mut s = match class {
+            "empty" => String::new(),
+            "ascii" => "hello".to_string(),
+            "nul" => "a\0b".to_string(),
+            "multibyte" => "h\u{e9}llo \u{2713} \u{1D11E} \u{10FFFF}".to_string(),
+            "len127" => "x".repeat(127),
+            "len128" => "y".repeat(128),
+            "len16383" => "z".repeat(16383),
+            "len16384" => "\u{e9}".repeat(8192),
+            "dots" => "a/./b/../c//d/".to_string(),
+            c => return Err(format!("string class {}", c)),
+        };
+        if salt > 0 {
+            if class.starts_with("len") {
+                // keep the byte length: vary the first byte
+                let c = (b'a' + (self.delta(salt) % 26) as u8) as char;
+                let n = s.chars().next().map(|c| c.len_utf8()).unwrap_or(0);
+                if n == 1 { s.replace_range(0..1, &c.to_string()); } else if n == 2 { s.replace_range(0..2, &format!("{}{}", c, c)); }
+            } else {
+                s.push_str(&format!("#{}", self.delta(salt)));
+            }
+        }
+        Ok(s)
+    }
+
+    fn leaf(&self, l: Leaf, ty: &Arc<Ty>, class: &str, salt: u32) -> Result<Dyn, String> {
+        use Leaf::*;
+        let d = self.delta(salt);
+        if let Some((w, signed)) = int_bits(l) {
+            let base = int_class_wire(w, class).ok_or_else(|| format!("int class {} for {}", class, l.name()))?;
+            let mut wire = base.wrapping_add(d) & mask(w);
+            if is_nonzero(l) && wire == 0 { wire = 1; }
+            let v = if signed {
+                // wire value = zig-zag image; reference inverse
+                let half = (wire >> 1) as i128;
+                V::I(if wire & 1 == 1 { -half - 1 } else { half })
+            } else { V::U(wire) };
+            return Ok(Dyn::new(ty, v));
+        }
+        let v = match l {
+            Bool | AtBool | CellBool => V::Bool((class == "true") ^ (salt & 1 == 1)),
+            Char => {
+                let base: u32 = match class {
+                    "nul" => 0, "a" => 'a' as u32, "x7f" => 0x7f, "x80" => 0x80, "x7ff" => 0x7ff, "x800" => 0x800, "x3fff" => 0x3fff,
+                    "x4000" => 0x4000, "xd7ff" => 0xd7ff, "xe000" => 0xe000, "xffff" => 0xffff, "x10000" => 0x10000, "x10ffff" => 0x10ffff,
+                    c => return Err(format!("char class {}", c)),
+                };
+                let c = char::from_u32(base.wrapping_add(d as u32)).or_else(|| char::from_u32(base.wrapping_sub(d as u32))).unwrap_or('a');
+                V::Char(c)
+            }
+            F32 => {
+                let b: u32 = match class {
+                    "zero" => 0, "negzero" => 0x8000_0000, "one" => 1f32.to_bits(), "negone" => (-1f32).to_bits(), "minpos" => 1,
+                    "max" => f32::MAX.to_bits(), "min" => f32::MIN.to_bits(), "inf" => f32::INFINITY.to_bits(), "neginf" => f32::NEG_INFINITY.to_bits(),
+                    "nan" => 0x7fc0_0000, "nanpayload" => 0x7f80_0001, "nanneg" => 0xffc1_2345,
+                    c => return Err(format!("float class {}", c)),
+                };
+                V::F32(b.wrapping_add(d as u32))
+            }
+            F64 => {
+                let b: u64 = match class {
+                    "zero" => 0, "negzero" => 1 << 63, "one" => 1f64.to_bits(), "negone" => (-1f64).to_bits(), "minpos" => 1,
+                    "max" => f64::MAX.to_bits(), "min" => f64::MIN.to_bits(), "inf" => f64::INFINITY.to_bits(), "neginf" => f64::NEG_INFINITY.to_bits(),
+                    "nan" => 0x7ff8_0000_0000_0000, "nanpayload" => 0x7ff0_0000_0000_0001, "nanneg" => 0xfff8_1234_5678_9abc,
+                    c => return Err(format!("float class {}", c)),
+                };
+                V::F64(b.wrapping_add(d as u64))
+            }
+            Unit | RangeFull | UnitStruct => V::Unit,
+            String | BoxStr | RcStr | ArcStr | CowStr | RefStr | PathBuf | BoxPath | RcPath | ArcPath => V::Str(self.string_for(class, salt)?),
+            Duration => match class {
+                "zero" => V::Dur(d as u64, 0),
+                "onens" => V::Dur(d as u64, 1),
+                "small" => V::Dur(1 + d as u64, 500_000_000),
+                "b" => V::Dur((1u64 << 35) + d as u64, 1 << 14),
+                "max" => V::Dur(u64::MAX - d as u64, 999_999_999),
+                c => return Err(format!("duration class {}", c)),
+            },
+            CellPair => if class == "a" { V::Raw(vec![V::U(200 ^ (d & 0xff)), V::I(-300 - (d % 1000) as i128)]) } else { V::Raw(vec![V::U(d & 0xff), V::I(i16::MIN as i128)]) },
+            Named => match class {
+                "zero" => V::Raw(vec![V::I(0 - d as i128), V::U(d), V::Str(std::string::String::new())]),
+                "mixed" => V::Raw(vec![V::I(-64 - d as i128), V::U(16384 + d), V::Str(self.string_for("multibyte", salt)?)]),
+                "max" => V::Raw(vec![V::I(i32::MIN as i128 + d as i128), V::U(u64::MAX as u128 - d), V::Str(self.string_for("len128", salt)?)]),
+                c => return Err(format!("Named class {}", c)),
+            },
+            TupleStruct => match class {
+                "zero" => V::Raw(vec![V::U(d & 0xffff), V::Str(std::string::String::new()), V::I(0)]),
+                "mixed" => V::Raw(vec![V::U((128 + d) & 0xffff), V::Str(self.string_for("ascii", salt)?), V::I(-1)]),
+                "max" => V::Raw(vec![V::U(0xffff - (d & 0xff)), V::Str(self.string_for("multibyte", salt)?), V::I(-128)]),
+                c => return Err(format!("TupleStruct class {}", c)),
+            },
+            Enum => match class {
+                "a" => V::RawVariant(0, vec![]),
+                "b" => V::RawVariant(1, vec![V::U((16383 + d) & 0xffff_ffff), V::Str(self.string_for("ascii", salt)?)]),
+                "c" => V::RawVariant(2, vec![V::I(i64::MIN as i128 + d as i128), V::Bool(salt & 1 == 0)]),
+                "d" => V::RawVariant(3, vec![V::I(-8192 - (d % 1000) as i128)]),
+                "e" => V::RawVariant(4, vec![]),
+                c => return Err(format!("Enum class {}", c)),
+            },
+            BigEnum => {
+                let i: u32 = class[1..].parse().map_err(|_| format!("BigEnum class {}", class))?;
+                match i {
+                    128 => V::RawVariant(128, vec![V::U((2097152 + d) & 0xffff_ffff)]),
+                    129 => V::RawVariant(129, vec![V::Str(self.string_for("multibyte", salt)?)]),
+                    131 => V::RawVariant(131, vec![V::U(255 - (d & 0x7f)), V::I(-1 - d as i128)]),
+                    i => V::RawVariant(i, vec![]),
+                }
+            }
+            IStr | IPath | IString => {
+                let s = match class { "dupempty" => std::string::String::new(), "internmb" => self.string_for("multibyte", salt)?, _ => self.string_for(if l == IPath { "dots" } else { "ascii" }, salt)? };
+                let dup = class.starts_with("dup");
+                match l {
+                    IStr => V::HandleStr(if dup { Interned::new_duplicating_unsized(s) } else { self.interner.intern_unsized::<str, std::string::String>(s) }),
+                    IPath => V::HandlePath(if dup { Interned::new_duplicating_unsized(std::path::PathBuf::from(s)) } else { self.interner.intern_unsized::<Path, std::path::PathBuf>(std::path::PathBuf::from(s)) }),
+                    _ => V::HandleString(if dup { Interned::new_duplicating(s) } else { self.interner.intern(s) }),
+                }
+            }
+            BvUsizeLsb0 | BvU8Lsb0 | BvU8Msb0 | BvU16Lsb0 | BvU32Msb0 | BvU64Lsb0 => {
+                let mut bits: Vec<bool> = match class {
+                    "empty" => vec![],
+                    "one1" => vec![true],
+                    "seven" => vec![true, false, true, true, false, false, true],
+                    "eightones" => vec![true; 8],
+                    "eighthi" => { let mut v = vec![false; 8]; v[7] = true; v }
+                    "nine" => vec![true, false, false, false, false, false, false, true, true],
+                    "b63" => (0..63).map(|i| i % 3 == 0).collect(),
+                    "b64" => (0..64).map(|i| i % 5 != 0).collect(),
+                    "b65" => (0..65).map(|i| i % 2 == 0 || i == 63).collect(),
+                    "alt130" => (0..130).map(|i| i % 2 == 1).collect(),
+                    "ones200" => vec![true; 200],
+                    c => return Err(format!("bitvec class {}", c)),
+                };
+                if salt > 0 && !bits.is_empty() { let n = bits.len(); let k = (mix(self.seed, salt) as usize) % n; bits[k] = !bits[k]; }
+                V::Bits(bits)
+            }
+            _ => unreachable!(),
+        };
+        Ok(Dyn::new(ty, v))
+    }
+
+    fn seq_elems(&self, class: &str, kid: &Term, salt: u32) -> Result<Vec<Dyn>, String> {
+        let salts: Vec<u32> = match class {
+            "empty" => vec![],
+            "one" => vec![salt],
+            "two" | "diff" => vec![salt, salt * 7 + 1],
+            "rep" => vec![salt, salt * 7 + 1, salt],
+            "same" => vec![salt, salt],
+            "big" => (0..130).map(|i| if i == 0 { salt } else { salt * 7 + i }).collect(),
+            c => return Err(format!("sequence class {}", c)),
+        };
+        salts.into_iter().map(|s| self.make(kid, s)).collect()
+    }
+
+    pub fn make(&self, t: &Term, salt: u32) -> Result<Dyn, String> {
+        let ty = ty_of(t)?;
+        let c = t.class.as_str();
+        match &*ty {
+            Ty::Leaf(l) => self.leaf(*l, &ty, c, salt),
+            Ty::Tup(_) => {
+                let kids = t.kids.iter().enumerate().map(|(i, k)| self.make(k, if i == 0 { salt } else { salt * 5 + i as u32 })).collect::<Result<Vec<_>, _>>()?;
+                Ok(Dyn::new(&ty, V::Seq(kids)))
+            }
+            Ty::Un(u, _) => {
+                let k = &t.kids[0];
+                use Un::*;
+                let v = match u {
+                    Option => if c == "none" { V::Opt(None) } else { V::Opt(Some(std::boxed::Box::new(self.make(k, salt)?))) },
+                    Vec | VecDeque | LinkedList | BoxSlice | RcSlice | ArcSlice | Slice | CowSlice | SmallVec2 => V::Seq(self.seq_elems(c, k, salt)?),
+                    BTreeSet | HashSet | HashSetFx | DashSet => { let mut e = self.seq_elems(c, k, salt)?; e.sort(); e.dedup(); V::Set(e) }
+                    Box | Rc | Arc | Cow | Ref | RefMut | RefCell | Wrapping | Reverse | RangeFrom | RangeTo | RangeToInclusive => V::Seq(vec![self.make(k, salt)?]),
+                    GSkip => V::Unit,
+                    Phantom => V::Unit,
+                    Range | RangeInclusive | Gs => V::Seq(vec![self.make(k, salt)?, self.make(k, salt * 7 + 1)?]),
+                    Bound => match c { "unbounded" => V::Variant(0, vec![]), "included" => V::Variant(1, vec![self.make(k, salt)?]), _ => V::Variant(2, vec![self.make(k, salt)?]) },
+                    Array0 => V::Seq(vec![]),
+                    Array1 => V::Seq(vec![self.make(k, salt)?]),
+                    Array2 => V::Seq(vec![self.make(k, salt)?, self.make(k, salt * 7 + 1)?]),
+                    Pair => V::Seq(self.seq_elems(c, k, salt)?),
+                    Triple | Array3 | Array4 | Array33 => {
+                        let n = match u { Array4 => 4, Array33 => 33, _ => 3 };
+                        let mut e = vec![];
+                        for i in 0..n {
+                            let s = if c == "rep" { if i % 2 == 0 { salt } else { salt * 7 + 1 } } else if i == 0 { salt } else { salt * 7 + i as u32 };
+                            e.push(self.make(k, s)?);
+                        }
+                        V::Seq(e)
+                    }
+                    Interned => {
+                        let inner = self.make(k, salt)?;
+                        V::Handle(if c == "dup" { qbice::storage::intern::Interned::new_duplicating(inner) } else { self.interner.intern(inner) })
+                    }
+                    InternedSlice => {
+                        let e = self.seq_elems(if c == "dup" { "two" } else { c }, k, salt)?;
+                        V::HandleSlice(if c == "dup" { qbice::storage::intern::Interned::new_duplicating_unsized(e) } else { self.interner.intern_unsized::<[Dyn], std::vec::Vec<Dyn>>(e) })
+                    }
+                    Ge => match c {
+                        "u" => V::Variant(0, vec![]),
+                        "t1" => V::Variant(1, vec![self.make(k, salt)?]),
+                        "n" => V::Variant(2, vec![self.make(k, salt)?, self.make(k, salt * 7 + 1)?]),
+                        _ => V::Variant(3, vec![self.make(k, salt)?]),
+                    },
+                };
+                Ok(Dyn::new(&ty, v))
+            }
+            Ty::Bin(b, _, _) => {
+                let (x, y) = (&t.kids[0], &t.kids[1]);
+                let v = match b {
+                    Bin::Result => if c == "ok" { V::Variant(0, vec![self.make(x, salt)?]) } else { V::Variant(1, vec![self.make(y, salt)?]) },
+                    Bin::BTreeMap | Bin::HashMap | Bin::HashMapFx | Bin::DashMap => {
+                        let ks = self.seq_elems(c, x, salt)?;
+                        let mut m: BTreeMap<Dyn, Dyn> = BTreeMap::new();
+                        for (i, k) in ks.into_iter().enumerate() { m.entry(k).or_insert(self.make(y, salt * 3 + i as u32)?); }
+                        V::Map(m.into_iter().collect())
+                    }
+                    Bin::Gs2 => V::Seq(vec![self.make(x, salt)?, self.make(y, salt)?]),
+                    Bin::Ge2 => match c {
+                        "l" => V::Variant(0, vec![self.make(x, salt)?]),
+                        "r" => V::Variant(1, vec![self.make(y, salt)?]),
+                        "b" => V::Variant(2, vec![self.make(x, salt)?, self.make(y, salt)?]),
+                        _ => V::Variant(3, vec![]),
+                    },
+                };
+                Ok(Dyn::new(&ty, v))
+            }
+        }
+    }
+}
+
+pub fn new_interner() -> Interner { Interner::new(4, BuildStableHasherDefault::<Sip128Hasher>::default()) }
+
+// ---------------------------------------------------------------------------
+// World: ONE long-lived encoder and ONE long-lived decoder over ONE buffer
+// ---------------------------------------------------------------------------
+
+pub struct SharedW(Rc<RefCell<Vec<u8>>>);
+impl io::Write for SharedW {
+    fn write(&mut self, b: &[u8]) -> io::Result<usize> { self.0.borrow_mut().extend_from_slice(b); Ok(b.len()) }
+    fn flush(&mut self) -> io::Result<()> { Ok(()) }
+}
+pub struct SharedR { buf: Rc<RefCell<Vec<u8>>>, pos: Rc<Cell<usize>> }
+impl io::Read for SharedR {
+    fn read(&mut self, out: &mut [u8]) -> io::Result<usize> {
+        let b = self.buf.borrow();
+        let p = self.pos.get();
+        let n = out.len().min(b.len().saturating_sub(p));
+        out[..n].copy_from_slice(&b[p..p + n]);
+        self.pos.set(p + n);
+        Ok(n)
+    }
+}
+
+pub struct World {
+    pub interner: Interner,
+    pub plugin: Plugin,
+    pub buf: Rc<RefCell<Vec<u8>>>,
+    pub rpos: Rc<Cell<usize>>,
+    enc: PostcardEncoder<SharedW>,
+    dec: PostcardDecoder<SharedR>,
+    /// end offset of every encoded top-level value
+    pub ends: Vec<usize>,
+}
+
+fn panic_msg(e: Box<dyn std::any::Any + Send>) -> String {
+    if let Some(s) = e.downcast_ref::<&str>() { s.to_string() } else if let Some(s) = e.downcast_ref::<String>() { s.clone() } else { "panic".into() }
+}
+
+#[derive(Debug)]
+pub enum Outcome<T> { Ok(T), Err(String), Panic(String) }
+
+impl World {
+    pub fn new() -> World {
+        let interner = new_interner();
+        let mut plugin = Plugin::new();
+        plugin.insert(interner.clone());
+        let buf = Rc::new(RefCell::new(Vec::new()));
+        let rpos = Rc::new(Cell::new(0));
+        World {
+            interner, plugin,
+            enc: PostcardEncoder::new(SharedW(buf.clone())),
+            dec: PostcardDecoder::new(SharedR { buf: buf.clone(), pos: rpos.clone() }),
+            buf, rpos, ends: vec![],
+        }
+    }
+    /// a fresh interner on the decode/encode plugin (process restart / other interner)
+    pub fn restart(&mut self) {
+        self.interner = new_interner();
+        self.plugin.insert(self.interner.clone());
+    }
+    pub fn len(&self) -> usize { self.buf.borrow().len() }
+    pub fn encode(&mut self, v: &Dyn) -> (Outcome<()>, usize, String) {
+        reset_tls();
+        let (enc, plugin) = (&mut self.enc, &self.plugin);
+        let r = std::panic::catch_unwind(std::panic::AssertUnwindSafe(|| enc.encode(v, plugin)));
+        let end = self.len();
+        let sr = take_sr_enc();
+        let o = match r { Ok(Ok(())) => { self.ends.push(end); Outcome::Ok(()) } Ok(Err(e)) => Outcome::Err(e.to_string()), Err(p) => Outcome::Panic(panic_msg(p)) };
+        (o, end, sr)
+    }
+    pub fn decode(&mut self, ty: &Arc<Ty>) -> (Outcome<Dyn>, usize, String) {
+        reset_tls();
+        let (dec, plugin) = (&mut self.dec, &self.plugin);
+        let r = std::panic::catch_unwind(std::panic::AssertUnwindSafe(|| with_frame(vec![ty.clone()], || dec.decode::<Dyn>(plugin))));
+        let sr = take_sr_dec();
+        reset_tls();
+        let o = match r { Ok(Ok(v)) => Outcome::Ok(v), Ok(Err(e)) => Outcome::Err(e.to_string()), Err(p) => Outcome::Panic(panic_msg(p)) };
+        (o, self.rpos.get(), sr)
+    }
+}
+
+// ---------------------------------------------------------------------------
+// Behaviours (from Codec.tla / composed from CodecGen cases and op shapes)
+// ---------------------------------------------------------------------------
+
+/// interned pool value: a tuple of handles; handle id -> kids; id -> how the
+/// ORIGINAL was created (intern: registered in the world's interner, dup: not)
+pub fn build_handles(w: &World, spec: &J) -> Result<Dyn, String> {
+    let top: Vec<u64> = spec["top"].as_array().ok_or("h.top")?.iter().filter_map(|x| x.as_u64()).collect();
+    fn handle(w: &World, spec: &J, id: u64, memo: &mut HashMap<u64, Dyn>) -> Result<Dyn, String> {
+        if let Some(d) = memo.get(&id) { return Ok(d.clone()); }
+        let kids: Vec<u64> = spec["kids"][id.to_string()].as_array().map(|a| a.iter().filter_map(|x| x.as_u64()).collect()).unwrap_or_default();
+        let mut fields = vec![Dyn { ty: Arc::new(Ty::Leaf(Leaf::String)), v: V::Str(format!("h{}", id)) }];
+        for k in kids { fields.push(handle(w, spec, k, memo)?); }
+        let cty = Arc::new(Ty::Tup(fields.iter().map(|f| f.ty.clone()).collect()));
+        let content = Dyn { ty: cty.clone(), v: V::Seq(fields) };
+        let how = spec["reg"][id.to_string()].as_str().unwrap_or("intern");
+        let h = if how == "dup" { Interned::new_duplicating(content) } else { w.interner.intern(content) };
+        let d = Dyn { ty: Arc::new(Ty::Un(Un::Interned, cty)), v: V::Handle(h) };
+        // a `dup` handle is a fresh allocation at every occurrence; an interned one is shared anyway
+        if how != "dup" { memo.insert(id, d.clone()); }
+        Ok(d)
+    }
+    let mut memo = HashMap::new();
+    let hs = top.iter().map(|id| handle(w, spec, *id, &mut memo)).collect::<Result<Vec<_>, _>>()?;
+    if hs.is_empty() || hs.len() > 12 { return Err("h.top arity".into()); }
+    Ok(Dyn { ty: Arc::new(Ty::Tup(hs.iter().map(|h| h.ty.clone()).collect())), v: V::Seq(hs) })
+}
+
+fn leaves_of(t: &Ty, out: &mut BTreeSet<String>) {
+    match t {
+        Ty::Leaf(l) => { out.insert(l.name().into()); }
+        Ty::Un(u, a) => { out.insert(u.name().into()); leaves_of(a, out); }
+        Ty::Bin(b, x, y) => { out.insert(b.name().into()); leaves_of(x, out); leaves_of(y, out); }
+        Ty::Tup(v) => { out.insert("Tuple".into()); for x in v { leaves_of(x, out); } }
+    }
+}
+
+fn short_dbg<T: std::fmt::Debug>(x: &T) -> String {
+    let s = format!("{:?}", x);
+    if s.len() > 1500 { format!("{}…({} chars)", &s[..s.char_indices().nth(1500).map(|x| x.0).unwrap_or(s.len())], s.len()) } else { s }
+}
+
+/// Runs one behaviour; returns (ok, steps json, first failure json).
+/// `ops`: {"op":"enc","v":i,"x":{"len":n,"sr":"SR.."}} | {"op":"dec","x":{"v":i,"pos":n,"fail":b,"sr":".."}}
+///        | {"op":"restart"} | {"op":"droporig"} | {"op":"dropdec"}     (indices 1-based, as in TLA+)
+pub fn run_behaviour(pool_spec: &[J], ops: &[J], seed: u64) -> J {
+    let mut w = World::new();
+    let mut pool: Vec<Option<Dyn>> = vec![];
+    let mut pool_txt: Vec<String> = vec![];
+    let mut tys: Vec<Arc<Ty>> = vec![];
+    for p in pool_spec {
+        let r = if !p["t"].is_null() {
+            parse_term(&p["t"]).and_then(|t| Gen { interner: &w.interner, seed }.make(&t, 0))
+        } else { build_handles(&w, &p["h"]) };
+        match r {
+            Ok(d) => { tys.push(d.ty.clone()); pool_txt.push(format!("{:?}", d)); pool.push(Some(d)); }
+            Err(e) => return json!({"ok": false, "tool_error": format!("cannot build pool value: {}", e)}),
+        }
+    }
+    let mut steps = vec![];
+    let mut fail: Option<J> = None;
+    let mut drift: Vec<J> = vec![];
+    let mut queue: VecDeque<usize> = VecDeque::new(); // harness-side record of what was written (pool idx)
+    let mut kept: Vec<Dyn> = vec![];
+    let mut ndec = 0usize;
+    for (si, op) in ops.iter().enumerate() {
+        let name = op["op"].as_str().unwrap_or("");
+        let x = &op["x"];
+        match name {
+            "enc" => {
+                let i = op["v"].as_u64().unwrap_or(0) as usize;
+                let Some(Some(v)) = pool.get(i.wrapping_sub(1)) else { return json!({"ok": false, "tool_error": format!("enc of unavailable pool value {}", i)}); };
+                let (o, end, sr) = w.encode(v);
+                let ok = matches!(o, Outcome::Ok(()));
+                steps.push(json!({"op": "enc", "v": i, "end": end, "sr": sr, "ok": ok}));
+                if !ok {
+                    fail = Some(json!({"step": si + 1, "kind": match o { Outcome::Panic(_) => "encode_panic", _ => "encode_error" }, "msg": format!("{:?}", o), "v": i, "ty": tys[i - 1].show(), "value": short_dbg(v)}));
+                    break;
+                }
+                queue.push_back(i);
+                if let Some(n) = x["len"].as_u64() { if n as usize != w.ends.len() { drift.push(json!({"step": si + 1, "what": "stream length", "model": n, "impl": w.ends.len()})); } }
+                if let Some(m) = x["sr"].as_str() { if m != sr { drift.push(json!({"step": si + 1, "what": "inline/reference pattern at encode", "model": m, "impl": sr})); } }
+            }
+            "dec" => {
+                // the EXPECTATION comes from the model's FIFO state
+                let want_i = x["v"].as_u64().unwrap_or(0) as usize;
+                let want_pos = x["pos"].as_u64().unwrap_or(0) as usize;
+                let model_fail = x["fail"].as_bool().unwrap_or(false);
+                if want_i == 0 || want_i > tys.len() || want_pos == 0 || want_pos > w.ends.len() {
+                    return json!({"ok": false, "tool_error": format!("dec expectation out of range at step {}", si + 1)});
+                }
+                let hq = queue.pop_front();
+                let (o, pos, sr) = w.decode(&tys[want_i - 1]);
+                ndec += 1;
+                let want_end = w.ends[want_pos - 1];
+                let (ok, kind, got) = match &o {
+                    Outcome::Ok(d) => {
+                        // originals may have been dropped: then compare with the Debug text taken when they were built
+                        let eq = match pool[want_i - 1].as_ref() { Some(o) => o == d, None => pool_txt[want_i - 1] == format!("{:?}", d) };
+                        match eq {
+                            false => (false, "value_mismatch", short_dbg(d)),
+                            _ if pos != want_end => (false, "pos_mismatch", short_dbg(d)),
+                            _ => (true, "", String::new()),
+                        }
+                    }
+                    Outcome::Err(e) => (false, "decode_error", e.clone()),
+                    Outcome::Panic(e) => (false, "decode_panic", e.clone()),
+                };
+                steps.push(json!({"op": "dec", "want": want_i, "pos": pos, "want_end": want_end, "sr": sr, "ok": ok, "kind": kind, "model_fail": model_fail}));
+                if hq != Some(want_i) { drift.push(json!({"step": si + 1, "what": "FIFO head", "model": want_i, "harness_queue": hq})); }
+                if ok { if let Some(m) = x["sr"].as_str() { if m != sr { drift.push(json!({"step": si + 1, "what": "inline/reference pattern at decode", "model": m, "impl": sr})); } } }
+                if ok && model_fail { drift.push(json!({"step": si + 1, "what": "model predicted a decode failure, implementation succeeded"})); }
+                if let Outcome::Ok(d) = o { kept.push(d); }
+                if !ok {
+                    let mut ls = BTreeSet::new();
+                    leaves_of(&tys[want_i - 1], &mut ls);
+                    fail = Some(json!({"step": si + 1, "kind": kind, "v": want_i, "ty": tys[want_i - 1].show(), "ctors": ls,
+                        "value": short_dbg(&pool_txt[want_i - 1]), "got": got, "pos": pos, "want_end": want_end,
+                        "bytes": w.buf.borrow()[(if want_pos >= 2 { w.ends[want_pos - 2] } else { 0 })..want_end].iter().take(64).map(|b| format!("{:02x}", b)).collect::<String>(),
+                        "model_fail": model_fail}));
+                    break;
+                }
+            }
+            "restart" => { w.restart(); steps.push(json!({"op": "restart"})); }
+            "droporig" => { for p in pool.iter_mut() { *p = None; } steps.push(json!({"op": "droporig"})); }
+            "dropdec" => { kept.clear(); steps.push(json!({"op": "dropdec"})); }
+            "vacuum" => { w.interner.vacuum(); steps.push(json!({"op": "vacuum"})); }
+            o => return json!({"ok": false, "tool_error": format!("unknown op {}", o)}),
+        }
+    }
+    // at the end: everything decoded <=> position = length
+    if fail.is_none() && ndec == w.ends.len() && w.rpos.get() != w.len() {
+        fail = Some(json!({"step": ops.len(), "kind": "final_pos", "pos": w.rpos.get(), "len": w.len()}));
+    }
+    json!({"ok": fail.is_none(), "steps": steps, "fail": fail, "drift": drift, "bytes": w.len()})
+}
+
+// ---------------------------------------------------------------------------
+// Sweeps over statically typed values (no Dyn in the path): exhaustive 8/16
+// bit domains, all chars, every varint boundary of the wider types, seeded
+// random values; and a list of ordinary static container types.
+// All values of one sweep are written back to back into ONE buffer.
+// ---------------------------------------------------------------------------
+
+pub struct Rng(pub u64);
+impl Rng {
+    pub fn next(&mut self) -> u64 { self.0 ^= self.0 << 13; self.0 ^= self.0 >> 7; self.0 ^= self.0 << 17; self.0.wrapping_mul(0x2545_F491_4F6C_DD1D) }
+    pub fn below(&mut self, n: u64) -> u64 { self.next() % n.max(1) }
+    pub fn u128(&mut self) -> u128 { ((self.next() as u128) << 64) | self.next() as u128 }
+    /// integers biased to varint boundaries and short lengths
+    pub fn wire(&mut self, w: u32) -> u128 {
+        let r = self.u128();
+        match self.below(4) {
+            0 => r & mask(w),
+            1 => { let k = 1 + self.below(((w - 1) / 7) as u64) as u32; ((1u128 << (7 * k)).wrapping_add((r % 5).wrapping_sub(2))) & mask(w) }
+            2 => { let bits = 1 + self.below(w as u64) as u32; r & mask(bits) }
+            _ => mask(w).wrapping_sub(r % 3),
+        }
+    }
+}
+
+pub fn sweep_back_to_back<T: Encode + Decode>(name: &str, vals: &[T], same: impl Fn(&T, &T) -> bool, show: impl Fn(&T) -> String, plugin: &Plugin) -> J {
+    let mut enc = PostcardEncoder::new(Vec::<u8>::new());
+    let mut ends = Vec::with_capacity(vals.len());
+    for v in vals {
+        if let Err(e) = enc.encode(v, plugin) { return json!({"type": name, "n": vals.len(), "failures": [{"kind": "encode_error", "value": show(v), "msg": e.to_string()}]}); }
+        ends.push(enc.get_ref().len());
+    }
+    let buf = enc.into_inner();
+    let mut dec = PostcardDecoder::new(&buf[..]);
+    let mut failures = vec![];
+    let mut nfail = 0u64;
+    for (i, v) in vals.iter().enumerate() {
+        let r = std::panic::catch_unwind(std::panic::AssertUnwindSafe(|| dec.decode::<T>(plugin)));
+        let pos = buf.len() - dec.get_ref().len();
+        let (ok, kind, got) = match r {
+            Ok(Ok(d)) => if !same(v, &d) { (false, "value_mismatch", show(&d)) } else if pos != ends[i] { (false, "pos_mismatch", show(&d)) } else { (true, "", String::new()) },
+            Ok(Err(e)) => (false, "decode_error", e.to_string()),
+            Err(p) => (false, "decode_panic", panic_msg(p)),
+        };
+        if !ok {
+            nfail += 1;
+            if failures.len() < 5 { failures.push(json!({"kind": kind, "index": i, "value": show(v), "got": got, "pos": pos, "want_end": ends[i]})); }
+            // the stream is out of step after a failure: resynchronise at the recorded end
+            dec = PostcardDecoder::new(&buf[ends[i]..]);
+        }
+    }
+    let fin = buf.len() - dec.get_ref().len();
+    json!({"type": name, "n": vals.len(), "bytes": buf.len(), "nfail": nfail, "failures": failures, "final_pos_ok": fin == buf.len()})
+}
+
+macro_rules! sweep_int {
+    ($out:expr, $plugin:expr, $rng:expr, $n:expr, $t:ty, $w:expr, $signed:expr) => {{
+        let w: u32 = $w;
+        let mut wires: Vec<u128> = vec![];
+        if w <= 16 { for x in 0..=mask(w) { wires.push(x); } } else {
+            let mut k = 0; while 7 * k < w { let b = 1u128 << (7 * k); for d in [-2i32, -1, 0, 1, 2] { wires.push(b.wrapping_add(d as u128) & mask(w)); } k += 1; }
+            for d in 0..3u128 { wires.push(d); wires.push(mask(w) - d); wires.push((mask(w) >> 1).wrapping_add(d) & mask(w)); wires.push((mask(w) >> 1).wrapping_sub(d)); }
+            for _ in 0..$n { wires.push($rng.wire(w)); }
+        }
+        // signed: the wire value is the zig-zag image, so both signs of every boundary are covered;
+        // plus the plain two's-complement reading of the same bit patterns
+        let vals: Vec<$t> = if $signed {
+            let mut v: Vec<$t> = wires.iter().map(|&u| { let h = (u >> 1) as i128; (if u & 1 == 1 { -h - 1 } else { h }) as $t }).collect();
+            if w > 16 { v.extend(wires.iter().map(|&u| u as $t)); }
+            v
+        } else { wires.iter().map(|&u| u as $t).collect() };
+        $out.push(sweep_back_to_back::<$t>(stringify!($t), &vals, |a, b| a == b, |a| format!("{:?}", a), $plugin));
+    }};
+}
+
+pub trait Arb: Sized { fn arb(r: &mut Rng, depth: u32) -> Self; }
+macro_rules! arb_int { ($($t:ty : $w:expr),*) => { $(impl Arb for $t { fn arb(r: &mut Rng, _d: u32) -> Self { r.wire($w) as $t } })* } }
+arb_int!(u8: 8, u16: 16, u32: 32, u64: 64, u128: 128, usize: 64, i8: 8, i16: 16, i32: 32, i64: 64, i128: 128, isize: 64);
+impl Arb for bool { fn arb(r: &mut Rng, _d: u32) -> Self { r.below(2) == 1 } }
+impl Arb for () { fn arb(_r: &mut Rng, _d: u32) -> Self {} }
+impl Arb for char { fn arb(r: &mut Rng, _d: u32) -> Self { char::from_u32(r.wire(21) as u32).unwrap_or('\u{fffd}') } }
+impl Arb for f64 { fn arb(r: &mut Rng, _d: u32) -> Self { let f = f64::from_bits(r.next()); if f.is_nan() { -0.0 } else { f } } }
+impl Arb for String { fn arb(r: &mut Rng, d: u32) -> Self { let n = [0, 1, 3, 127, 128, 200][r.below(6) as usize]; (0..n).map(|_| char::arb(r, d)).collect() } }
+impl Arb for Box<str> { fn arb(r: &mut Rng, d: u32) -> Self { String::arb(r, d).into_boxed_str() } }
+impl Arb for UnitS { fn arb(_r: &mut Rng, _d: u32) -> Self { UnitS } }
+fn arb_len(r: &mut Rng, d: u32) -> usize { if d == 0 { [0usize, 1, 2, 127, 128, 129][r.below(6) as usize] } else { r.below(4) as usize } }
+impl<T: Arb> Arb for Vec<T> { fn arb(r: &mut Rng, d: u32) -> Self { (0..arb_len(r, d)).map(|_| T::arb(r, d + 1)).collect() } }
+impl<T: Arb> Arb for VecDeque<T> { fn arb(r: &mut Rng, d: u32) -> Self { Vec::<T>::arb(r, d).into() } }
+impl<T: Arb> Arb for LinkedList<T> { fn arb(r: &mut Rng, d: u32) -> Self { Vec::<T>::arb(r, d).into_iter().collect() } }
+impl<T: Arb> Arb for Box<[T]> { fn arb(r: &mut Rng, d: u32) -> Self { Vec::<T>::arb(r, d).into_boxed_slice() } }
+impl<T: Arb + Ord> Arb for BTreeSet<T> { fn arb(r: &mut Rng, d: u32) -> Self { Vec::<T>::arb(r, d).into_iter().collect() } }
+impl<T: Arb + Eq + std::hash::Hash> Arb for HashSet<T> { fn arb(r: &mut Rng, d: u32) -> Self { Vec::<T>::arb(r, d).into_iter().collect() } }
+impl<K: Arb + Ord, U: Arb> Arb for BTreeMap<K, U> { fn arb(r: &mut Rng, d: u32) -> Self { Vec::<(K, U)>::arb(r, d).into_iter().collect() } }
+impl<K: Arb + Eq + std::hash::Hash, U: Arb> Arb for HashMap<K, U> { fn arb(r: &mut Rng, d: u32) -> Self { Vec::<(K, U)>::arb(r, d).into_iter().collect() } }
+impl<T: Arb> Arb for Option<T> { fn arb(r: &mut Rng, d: u32) -> Self { if r.below(3) == 0 { None } else { Some(T::arb(r, d + 1)) } } }
+impl<T: Arb, E: Arb> Arb for Result<T, E> { fn arb(r: &mut Rng, d: u32) -> Self { if r.below(2) == 0 { Ok(T::arb(r, d + 1)) } else { Err(E::arb(r, d + 1)) } } }
+impl<T: Arb> Arb for Box<T> { fn arb(r: &mut Rng, d: u32) -> Self { Box::new(T::arb(r, d)) } }
+impl<T: Arb> Arb for Rc<T> { fn arb(r: &mut Rng, d: u32) -> Self { Rc::new(T::arb(r, d)) } }
+impl<T: Arb> Arb for Arc<T> { fn arb(r: &mut Rng, d: u32) -> Self { Arc::new(T::arb(r, d)) } }
+impl<T: Arb, const N: usize> Arb for [T; N] { fn arb(r: &mut Rng, d: u32) -> Self { std::array::from_fn(|_| T::arb(r, d + 1)) } }
+impl<T: Arb> Arb for std::ops::Range<T> { fn arb(r: &mut Rng, d: u32) -> Self { T::arb(r, d)..T::arb(r, d) } }
+impl<T: Arb> Arb for std::ops::RangeInclusive<T> { fn arb(r: &mut Rng, d: u32) -> Self { T::arb(r, d)..=T::arb(r, d) } }
+impl<T: Arb> Arb for std::ops::Bound<T> { fn arb(r: &mut Rng, d: u32) -> Self { match r.below(3) { 0 => std::ops::Bound::Unbounded, 1 => std::ops::Bound::Included(T::arb(r, d)), _ => std::ops::Bound::Excluded(T::arb(r, d)) } } }
+impl<T: Arb + Clone> Arb for Cow<'static, [T]> { fn arb(r: &mut Rng, d: u32) -> Self { Cow::Owned(Vec::<T>::arb(r, d)) } }
+impl<T: Arb> Arb for GS<T> { fn arb(r: &mut Rng, d: u32) -> Self { GS { a: T::arb(r, d + 1), skipped: 0, b: T::arb(r, d + 1) } } }
+impl<T: Arb> Arb for GE<T> { fn arb(r: &mut Rng, d: u32) -> Self { match r.below(4) { 0 => GE::U, 1 => GE::T1(T::arb(r, d + 1)), 2 => GE::N { x: T::arb(r, d + 1), s: 0, y: T::arb(r, d + 1) }, _ => GE::T2(0, T::arb(r, d + 1)) } } }
+impl<T: Arb, U: Arb> Arb for GS2<T, U> { fn arb(r: &mut Rng, d: u32) -> Self { GS2 { t: T::arb(r, d + 1), u: U::arb(r, d + 1), z: String::new() } } }
+impl<T: Arb, U: Arb> Arb for GE2<T, U> { fn arb(r: &mut Rng, d: u32) -> Self { match r.below(4) { 0 => GE2::L(T::arb(r, d + 1)), 1 => GE2::R(U::arb(r, d + 1)), 2 => GE2::B { t: T::arb(r, d + 1), u: U::arb(r, d + 1) }, _ => GE2::Z } } }
+macro_rules! arb_tuple { ($($n:ident),+) => { impl<$($n: Arb),+> Arb for ($($n,)+) { fn arb(r: &mut Rng, d: u32) -> Self { ($($n::arb(r, d + 1),)+) } } } }
+arb_tuple!(A);
+arb_tuple!(A, B);
+arb_tuple!(A, B, C);
+arb_tuple!(A, B, C, D);
+arb_tuple!(A, B, C, D, E, F, G, H, I, J, K, L);
+
+macro_rules! sweep_static {
+    ($out:expr, $plugin:expr, $rng:expr, $n:expr, $($t:ty),+ $(,)?) => { $( {
+        let vals: Vec<$t> = (0..$n).map(|_| <$t as Arb>::arb($rng, 0)).collect();
+        $out.push(sweep_back_to_back::<$t>(stringify!($t), &vals, |a, b| a == b, |a| short_dbg(a), $plugin));
+    } )+ };
+}
+
+pub fn sweeps(seed: u64, n: usize) -> Vec<J> {
+    let plugin = Plugin::new();
+    let mut rng = Rng(seed.wrapping_mul(0x9E37_79B9_7F4A_7C15) | 1);
+    let mut out = vec![];
+    sweep_int!(out, &plugin, rng, n, u8, 8, false);
+    sweep_int!(out, &plugin, rng, n, i8, 8, true);
+    sweep_int!(out, &plugin, rng, n, u16, 16, false);
+    sweep_int!(out, &plugin, rng, n, i16, 16, true);
+    sweep_int!(out, &plugin, rng, n, u32, 32, false);
+    sweep_int!(out, &plugin, rng, n, i32, 32, true);
+    sweep_int!(out, &plugin, rng, n, u64, 64, false);
+    sweep_int!(out, &plugin, rng, n, i64, 64, true);
+    sweep_int!(out, &plugin, rng, n, u128, 128, false);
+    sweep_int!(out, &plugin, rng, n, i128, 128, true);
+    sweep_int!(out, &plugin, rng, n, usize, 64, false);
+    sweep_int!(out, &plugin, rng, n, isize, 64, true);
+    out.push(sweep_back_to_back::<bool>("bool", &[false, true, true, false], |a, b| a == b, |a| format!("{:?}", a), &plugin));
+    let chars: Vec<char> = (0..=0x10FFFFu32).filter_map(char::from_u32).collect();
+    out.push(sweep_back_to_back::<char>("char(all scalar values)", &chars, |a, b| a == b, |a| format!("{:?}", a), &plugin));
+    let mut f32s: Vec<f32> = [0u32, 0x8000_0000, 1, 0x7f7f_ffff, 0xff7f_ffff, 0x7f80_0000, 0xff80_0000, 0x7fc0_0000, 0x7f80_0001, 0xffc1_2345, 0x3f80_0000].iter().map(|b| f32::from_bits(*b)).collect();
+    for _ in 0..n { f32s.push(f32::from_bits(rng.next() as u32)); }
+    out.push(sweep_back_to_back::<f32>("f32(bits)", &f32s, |a, b| a.to_bits() == b.to_bits(), |a| format!("{:#x}", a.to_bits()), &plugin));
+    let mut f64s: Vec<f64> = [0u64, 1 << 63, 1, 0x7fef_ffff_ffff_ffff, 0x7ff0_0000_0000_0000, 0xfff0_0000_0000_0000, 0x7ff8_0000_0000_0000, 0x7ff0_0000_0000_0001, 0xfff8_1234_5678_9abc].iter().map(|b| f64::from_bits(*b)).collect();
+    for _ in 0..n { f64s.push(f64::from_bits(rng.next())); }
+    out.push(sweep_back_to_back::<f64>("f64(bits)", &f64s, |a, b| a.to_bits() == b.to_bits(), |a| format!("{:#x}", a.to_bits()), &plugin));
+    let m = (n / 50).max(20);
+    sweep_static!(out, &plugin, &mut rng, m,
+        String, Box<str>, Vec<u8>, Vec<()>, Vec<UnitS>, Option<()>, Option<Option<bool>>,
+        Vec<Option<(u8, String)>>, HashMap<String, Vec<i64>>, BTreeMap<u16, Box<str>>,
+        (u8, u16, u32, u64, u128, usize, i8, i16, i32, i64, i128, isize),
+        [u16; 5], [String; 2], [u8; 0], Result<Vec<u8>, String>, VecDeque<char>, LinkedList<i32>,
+        Arc<Vec<Rc<Box<u32>>>>, Cow<'static, [u8]>, std::ops::Range<i64>, std::ops::RangeInclusive<u8>,
+        std::ops::Bound<String>, BTreeSet<i128>, HashSet<u64>, Box<[u16]>, Vec<f64>,
+        GS<u32>, GE<String>, GS2<u8, Vec<u8>>, GE2<(), String>, GS<GE<Vec<GS2<i16, bool>>>>,
+        Vec<Vec<Vec<u8>>>, BTreeMap<String, BTreeMap<u8, Vec<Option<i8>>>>, Option<Box<(char, bool, ())>>);
+    out
 }
